@@ -8,6 +8,7 @@ from typing_extensions import override
 from .decodestate import DecodeState
 from .diagcodedtype import DctType, DiagCodedType
 from .encodestate import EncodeState
+from .encoding import get_string_encoding
 from .exceptions import EncodeError, odxraise, odxrequire
 from .odxlink import OdxDocFragment, OdxLinkDatabase, OdxLinkId, OdxLinkRef
 from .odxtypes import AtomicOdxType, DataType
@@ -65,14 +66,25 @@ class ParamLengthInfoType(DiagCodedType):
             # the length key is implicit, i.e., we need to set the
             # value for the length key in the encode_state based on
             # the value passed here.
-            if self.base_data_type in [
-                    DataType.A_BYTEFIELD,
-                    DataType.A_ASCIISTRING,
-                    DataType.A_UTF8STRING,
+            if self.base_data_type == DataType.A_BYTEFIELD:
+                bit_length = 8 * len(cast(bytes, internal_value))
+            elif self.base_data_type in [
+                    DataType.A_ASCIISTRING, DataType.A_UTF8STRING, DataType.A_UNICODE2STRING
             ]:
-                bit_length = 8 * len(cast(str, internal_value))
-            elif self.base_data_type in [DataType.A_UNICODE2STRING]:
-                bit_length = 16 * len(cast(str, internal_value))
+                # the size of string objects is determined by their
+                # encoded representation, not by the number of
+                # characters
+                char_size = 2 if self.base_data_type == DataType.A_UNICODE2STRING else 1
+                bit_length = 8 * char_size * len(cast(str, internal_value))
+                str_encoding = get_string_encoding(self.base_data_type, self.base_type_encoding,
+                                                   self.is_highlow_byte_order)
+                if isinstance(internal_value, str) and str_encoding is not None:
+                    try:
+                        bit_length = 8 * len(internal_value.encode(str_encoding))
+                    except UnicodeError:
+                        # the problem will be reported when the
+                        # object is emplaced into the PDU
+                        pass
             elif self.base_data_type in [DataType.A_INT32, DataType.A_UINT32]:
                 bit_length = int(internal_value).bit_length()
                 if self.base_data_type == DataType.A_INT32:
